@@ -1,7 +1,7 @@
 #!/bin/bash
 # sweep.sh <first-seed> <last-seed> [pids...]: run the quick checks on the unchanged tree for a range of seeds;
 # print only the runs that raised an alarm (false alarms on the unchanged tree are bugs in the machinery).
-cd /verif
+cd "$(dirname "$0")/.."
 a=$1; b=$2; shift 2
 pids=${@:-$(python3 -c "import sys; sys.path.insert(0,'.'); from checklib import registry; print(' '.join(sorted(registry.CHECKS)))")}
 for s in $(seq $a $b); do
@@ -9,7 +9,7 @@ for s in $(seq $a $b); do
     out=$(VERIF_SEED=$s ./check $pid 2>&1)
     if echo "$out" | grep -q "VIOLATION\|FAILED\|Traceback"; then
       echo "seed=$s $pid:"; echo "$out" | grep -E "VIOLATION|FAILED|^  |Error|Traceback" | head -5
-      mkdir -p /tmp/sweep-fails; cp evidence/replays/$pid-*.json /tmp/sweep-fails/ 2>/dev/null
+      mkdir -p sweep-fails; cp evidence/replays/$pid-*.json sweep-fails/ 2>/dev/null
     fi
   done
   echo "seed $s done"
